@@ -30,6 +30,7 @@ def run(repo, res, tier):
     sk_bash.candord_rule(repo, res, tier)
     sk_bash.matchfn_rule(repo, res, tier)
     c04.shared_cmd_ids(repo, res)
+    c04.names_rule(repo, res)  # the body of _<cmd>_cmd_<id> is fed from the command set; the names called are the names defined
     from vlib import rules_fieldcover as FC
     FC.fieldcover(repo, res, "dfa::DFA::get_commands", "Inp", "cmd", "call:insert", min_matches=2)  # V2: one command-id set numbers the _cmd_<id> functions and every table, main and within-word
     c11.lookup_rule(repo, res)
